@@ -103,7 +103,17 @@ func checkC15(c *run.Ctx) {
 		for b, k := range c15Keys {
 			if mask&(1<<b) != 0 {
 				keys[k] = true
-				pairs = append(pairs, doc.P(k, c15KeyValue(k)))
+				v := c15KeyValue(k)
+				if k == "plugins" {
+					// the three spellings of the plugins value: a list, the legacy single mapping, null
+					switch mix(i, 1, 3) {
+					case 1:
+						v = doc.M(doc.P("p#v1", doc.M(doc.P("x", doc.I(1)))), doc.P("q#v2", doc.Null()))
+					case 2:
+						v = doc.Null()
+					}
+				}
+				pairs = append(pairs, doc.P(k, v))
 			}
 		}
 		if typ != nil {
